@@ -201,6 +201,16 @@ func check(c Case) (o ev.Outcome) {
 							}
 						}
 					}
+					// negative: the same path without its choice and case steps names no child of the node
+					// where the choice stands
+					if short, ok := schema.WithoutChoiceSteps(trees, tg); ok {
+						negatives++
+						classes["negative-without-choice-steps"] = true
+						if g := st.e.Find(short); g != nil {
+							fail("non-existent-step", "negative/choice-and-case-steps-left-out", "from %s%s: Find(%q) returned %s although the steps through the choice are left out", m.Name, st.path, short, desc(g))
+							return
+						}
+					}
 					// negative: one step replaced by a name that is no child there
 					if (uint32(si*131+ti)*2246822519+c.Pick)%3 == 0 {
 						steps := strings.Split(strings.TrimPrefix(tg.Path, "/"), "/")
